@@ -6,6 +6,6 @@ CONSTANTS
   WDigest = 1
   Mode = "reduced"
   Size = "small"
-  Kinds = {"P","T","V","C"}
+  Kinds = {"P","V","T"}
 INVARIANTS InvSingleField InvGivenNetwork
 CHECK_DEADLOCK FALSE
